@@ -13,20 +13,27 @@ TSEYTIN = 'cirbo.sat.cnf.tseytin'
 
 
 def find_operations(ck: Checker):
-    """Locate the `_operations` dispatch dict: returns (mod, fn, dict_node, {type: (handler_name, value_node)})."""
+    """Locate the dispatch dict from gate types to clause templates (`_operations` on the pinned tree): returns (mod, fn, dict_node, {type: (handler_name, value_node)})."""
     repo = ck.repo
     mod = repo.mod(TSEYTIN)
     fn = mod.func('tseytin_transformation')
-    dict_node = None
+    # the dispatch table: the dictionary literal (local to the transformation or at module level, whatever it is called)
+    # whose keys are gate-type constants and whose values are functions of this module
+    cands = []
+    def consider(name, value):
+        if isinstance(value, ast.Dict) and len(value.keys) >= 8 and all(k is not None and gate_const(repo, mod, k) is not None for k in value.keys):
+            cands.append((name, value))
     for node in ast.walk(fn):
         if isinstance(node, (ast.Assign, ast.AnnAssign)):
             tgt = node.targets[0] if isinstance(node, ast.Assign) else node.target
-            if isinstance(tgt, ast.Name) and tgt.id == '_operations' and isinstance(node.value, ast.Dict):
-                dict_node = node.value
-    if dict_node is None and '_operations' in mod.assigns and isinstance(mod.assigns['_operations'], ast.Dict):
-        dict_node = mod.assigns['_operations']
-    if dict_node is None:
-        raise AnalysisError(f'{mod.rel}: dispatch dictionary _operations not found')
+            if isinstance(tgt, ast.Name):
+                consider(tgt.id, node.value)
+    for name, value in mod.assigns.items():
+        consider(name, value)
+    if len(cands) != 1:
+        raise AnalysisError(f'{mod.rel}: dispatch dictionary from gate types to clause templates not found ({len(cands)} candidates)')
+    dict_name, dict_node = cands[0]
+    dict_node._dispatch_name = dict_name
     table = {}
     for k, v in zip(dict_node.keys, dict_node.values):
         t = gate_const(repo, mod, k) if k is not None else None
